@@ -26,6 +26,7 @@ ASSUMPTIONS = [
 T_READ, T_WRITE = 0, 1
 AMOS = {3: "add", 4: "and", 5: "or", 6: "swap", 7: "min", 8: "minu", 9: "max", 10: "maxu", 11: "xor"}
 MEMSZ = 1 << 14
+AW = 32          # width of the address field of the request type
 BASE = 0x400
 
 
@@ -37,7 +38,7 @@ def plan(tier, seed):
 
 def thresholds(tier):
   t = {"configs_completed": 100, "ops_replayed": 10000, "subword_ops": 500, "amo_ops": 200, "responses_checked": 10000,
-       "multiport_configs": 50, "rtl_configs": 30, "cl_configs": 30, "backpressure_configs": 30, "metamorphic_pairs": 8, "configs_with_ports_of_different_data_width": 20, "cl_memory_with_rtl_masters_configs": 30, "image_api_calls": 1000, "fl_configs": 20, "configs_with_non_power_of_two_memory": 60}
+       "multiport_configs": 50, "rtl_configs": 30, "cl_configs": 30, "backpressure_configs": 30, "metamorphic_pairs": 8, "configs_with_ports_of_different_data_width": 20, "cl_memory_with_rtl_masters_configs": 30, "image_api_calls": 1000, "fl_configs": 20, "configs_with_non_power_of_two_memory": 60, "configs_at_the_top_of_a_narrow_address_space": 40}
   if tier == "thorough":
     t = {k: v * 20 for k, v in t.items()}
     t["image_api_calls"] = 3000           # a fixed number of calls per shard
@@ -94,14 +95,14 @@ def gen_stream(rng, nops, nwords, amo_p, subword_amo, dw=32):
     if r < amo_p:
       ln = rng.randrange(1, full) if subword_amo and rng.random() < 0.5 and full > 1 else 0
       nb = ln or full
-      out.append({"type": rng.choice(list(AMOS)), "addr": BASE + 4 * w, "len": ln, "nb": nb,
+      out.append({"type": rng.choice(list(AMOS)), "addr": min(BASE + 4 * w, MEMSZ - nb), "len": ln, "nb": nb,
                   "data": rng.choice([rng.getrandbits(dw), (1 << dw) - 1, 1 << (dw - 1), (1 << (dw - 1)) - 1, 1, 0,
                                       1 << (8 * nb - 1), (1 << (8 * nb)) - 1])})
     else:
       ln = rng.choice([0, 0] + list(range(1, full)))
       nbytes = ln or full
       off = rng.randrange(0, 4) if nbytes < full else rng.choice([0, 0, 0, 1, 2, 3])   # unaligned words straddle
-      addr = BASE + 4 * w + off
+      addr = min(BASE + 4 * w + off, MEMSZ - nbytes)          # the last byte of the memory can be the last byte of an access, no more
       if r < amo_p + (1 - amo_p) * 0.5:
         out.append({"type": T_READ, "addr": addr, "len": ln, "nb": nbytes, "data": 0})
       else:
@@ -127,7 +128,7 @@ def build(model, nports, streams, gaps, ev, stall, latency, patterns, dws=None):
   from pymtl3.stdlib.mem import mk_mem_msg
   from vlib import harness
   dws = dws or [32] * nports
-  types = {dw: mk_mem_msg(8, 32, dw) for dw in set(dws)}
+  types = {dw: mk_mem_msg(8, AW, dw) for dw in set(dws)}
   ptypes = [types[dw] for dw in dws]                      # per-port (request, response) classes: ports may differ in data width
   msgs = [[ptypes[p][0](r["type"], i & 0xFF, r["addr"], r["len"], r["data"]) for i, r in enumerate(st)] for p, st in enumerate(streams)]
   if model == "cl":
@@ -278,7 +279,7 @@ def simulate(sh, cfg, streams):
         break
   except Exception as e:
     err = (type(e).__name__, str(e)[:200], traceback.format_exc()[-600:])
-  image = bytes(top.mem.read_mem(BASE - 8, 4 * cfg["nwords"] + 24))
+  image = bytes(top.mem.read_mem(BASE - 8, min(4 * cfg["nwords"] + 24, MEMSZ - (BASE - 8))))
   return ev, cyc, bound, err, image
 
 
@@ -414,9 +415,16 @@ def run_config(sh, rng, case, probe=None):
     if bp == "half": return [rng.getrandbits(1) for _ in range(64)]
     if bp == "bursty": return [0] * rng.randrange(3, 20) + [1] * rng.randrange(3, 20)
     return [1 if rng.random() < 0.15 else 0 for _ in range(64)] + [1]
-  global MEMSZ, BASE
-  MEMSZ, BASE = 1 << 14, 0x400
-  if probe is None and rng.random() < 0.5:
+  global MEMSZ, BASE, AW
+  MEMSZ, BASE, AW = 1 << 14, 0x400, 32
+  narrow = probe is None and rng.random() < 0.25
+  if narrow:
+    # a request type whose address field is exactly as wide as the memory needs, the traffic right below the top of the address
+    # space: an access may end with the very last byte ( addr + len == 2**AW )
+    AW = rng.choice([16, 16, 20]); MEMSZ = 1 << AW
+    BASE = MEMSZ - 4 * nwords
+    sh.count("configs_at_the_top_of_a_narrow_address_space")
+  if probe is None and not narrow and rng.random() < 0.5:
     # memories whose size is not a power of two, the traffic anywhere in it (bottom, middle, right below the top)
     MEMSZ = rng.choice([1100, 1200, 1500, 2000, 3000, 5000, 12000, 1 << 12, 1 << 13])
     span = 4 * nwords + 24
@@ -431,7 +439,7 @@ def run_config(sh, rng, case, probe=None):
   streams = [gen_stream(rng, nops, nwords, amo_p, subword_amo, dws[p]) for p in range(nports)]
   cfg = {"model": model, "dws": dws, "nports": nports, "latency": latency, "stall": stall, "nwords": nwords, "bp": bp,
          "patterns": [pat() for _ in range(nports)], "gaps": [gen_gaps(rng, nops) for _ in range(nports)],
-         "bp_factor": {"none": 1, "half": 3, "bursty": 4, "rare": 10}[bp], "subword_amo": subword_amo, "case": case, "mem_nbytes": MEMSZ, "base": BASE}
+         "bp_factor": {"none": 1, "half": 3, "bursty": 4, "rare": 10}[bp], "subword_amo": subword_amo, "case": case, "mem_nbytes": MEMSZ, "base": BASE, "addr_bits": AW}
   try:
     ev, cyc, bound, err, image = simulate(sh, cfg, streams)
   except Exception as e:
